@@ -362,7 +362,13 @@ func Judge(obs *e2e.Obs) (fs []finding, info map[string]int) {
 			if float64(upRecv[tag]) > attempts {
 				add("output:received-vs-attempts", fmt.Sprintf("%s: upstream completely received %d chunks but only %v forward attempts are counted", d, upRecv[tag], attempts))
 			}
-			if faultFree && g.WaitOK {
+			// "At quiescence": the harness sees the upstream's half of it (every ACK written, WaitOK) and waits for the agent's half
+			// before the stop (BeforeStop below), but only the directory tells for certain: a chunk file left behind means the
+			// agent still held a chunk when it was stopped - an ACK in flight is lost legitimately - and the equalities are not
+			// demanded of that key set (the inequalities above are).
+			if faultFree && g.WaitOK && filesAfter[s] > 0 {
+				info["fault_free_sets_stopped_with_a_chunk_in_flight"]++
+			} else if faultFree && g.WaitOK {
 				if int(forwarded) != upRecv[tag] || int(acked) != upAck[tag] || int(forwarded) != int(acked) {
 					add("output:fault-free-equalities", fmt.Sprintf("%s: fault-free run: forwarded %v, upstream received %d, upstream acked %d, agent acknowledged %v, consumed %v should all be equal", d, forwarded, upRecv[tag], upAck[tag], acked, consumed))
 				}
